@@ -305,3 +305,62 @@ def run(chk):
                 nret += 1
     r5.note("%d cursor retreats (-- / -=) in the parser; each undoes the advance made just before it, so the single remembered column belongs to the line break re-crossed (bounds of these retreats: C01 R1.3)" % nret)
     r5.require(3, "obligations")
+
+    # ------------------------------------------------------------------ R20.6 optimizer-built nodes keep the replaced node's location
+    r6 = chk.rule("R20.6", "every node the optimizer builds carries the location of the node it replaces: the location argument comes from the same node as the text and the children moved into the new node (or from the pass's own node when the new node is a folded constant)",
+                  "failing call and enclosing call sites are reported at the source position of the construct, also for code rewritten by the optimizer (calls in loop bodies, folded expressions, compiled loops)")
+    seen6 = set()
+    for f in prog.fns:
+        if f["tk"] == "pattern" or not f["q"].startswith("chaiscript::optimizer::"):
+            continue
+        for n in walk(f["body"]):
+            if n.get("k") != "call" or n.get("name") not in ("make_unique", "make_node"):
+                continue
+            d = prog.decl(f, n.get("fn")) if n.get("fn") is not None else None
+            targs = (d.get("targs") or []) if d else []
+            cls = next((t for t in targs[:2] if "_AST_Node<" in t and "AST_Node_Impl<" not in t), None)
+            if cls is None:
+                continue
+            short = strip_targs(cls).split("::")[-1]
+            ident = "%s: %s built at line %d" % (strip_targs(f["q"]), short, n["l"])
+            if ident in seen6:
+                continue
+            seen6.add(ident)
+            chk.touched([f])
+            args = n.get("args") or []
+
+            def node_of(e, field):
+                """base expression text of `<node>.field` / `<node>->field` found in e (through std::move)"""
+                for x in walk(e):
+                    if x.get("k") == "member" and x.get("name") == field:
+                        return expr_str(prog, f, x["base"]) if x.get("base") is not None else "?"
+                return None
+            if short == "Compiled_AST_Node":
+                ctors = [c for c in prog.fns if c["kind"] == "ctor" and strip_targs(c.get("cls") or "").endswith("eval::Compiled_AST_Node") and not c.get("implicit") and len(c["params"]) >= 3]
+                r6.anchor(bool(ctors), "Compiled_AST_Node constructor")
+                c = ctors[0]
+                base_inits = [i for i in c.get("inits", []) if i.get("base") or "AST_Node_Impl" in str(i.get("name", ""))] or c.get("inits", [])[:1]
+                locs = [node_of(i.get("init") or {}, "location") for i in base_inits]
+                txts = [node_of(i.get("init") or {}, "text") for i in base_inits]
+                p0 = c["params"][0]["name"]
+                ok = any(l is not None and p0 in l for l in locs) and any(t is not None and p0 in t for t in txts)
+                r6.ob(ident, ok, "%s:%d" % (f["file"], n["l"]), f["q"], "the Compiled node's constructor takes text %s and location %s, expected both from its first parameter (the node being replaced)" % (txts, locs))
+                continue
+            if len(args) < 2:
+                r6.ob(ident, False, "%s:%d" % (f["file"], n["l"]), f["q"], "unrecognised construction (fewer than two arguments)")
+                continue
+            lb = node_of(args[1], "location")
+            tb = node_of(args[0], "text")
+            cb = node_of(args[2], "children") if len(args) > 2 else None
+            if lb is None:
+                ok, why = False, "the location argument `%s` is not some node's location" % expr_str(prog, f, args[1])[:60]
+            else:
+                others = [b for b in (tb, cb) if b is not None]
+                if others:
+                    ok = all(b == lb for b in others)
+                    why = "location of `%s`, text of `%s`, children of `%s`" % (lb, tb, cb)
+                else:
+                    ok = re.sub(r"[()\s>-]", "", lb) == "node"
+                    why = "a node built from new parts takes the location of `%s`, expected the pass's own `node`" % lb
+            r6.ob(ident, ok, "%s:%d" % (f["file"], n["l"]), f["q"], why + ": an error raised inside the rebuilt construct is reported at another construct's position")
+    r6.require(10, "node constructions in the optimizer")
